@@ -41,6 +41,10 @@ CHECKS["C04"] = dict(level="fault_enumeration",
    text="For every scenario (3 backends x 5 operations x up to 4 documented call styles) the step sequence of a clean run is recorded (local: every os-level call of the storage, data-file and lock modules plus every storage API call; S3: every request) and one fault is injected at EVERY step: storage error before effect, (S3) error after effect on every PUT/DELETE, KeyboardInterrupt before and after, SystemExit before; plus double faults with a second error 1-8 steps later. After each injection an independent reader classifies the table as pre / post / damaged: success implies post, a non-ambiguous storage error implies pre, an interrupt implies pre or post, AmbiguousCommitError only from an object-store pointer fault and then no file written by the transaction is missing; every retained snapshot must verify; a follow-up append + scan on a fresh handle must work and must not reference any file of the failed transaction. Exhaustive over the step sequence of each scenario, not over scenarios.",
    note="Fault-free step sequences are assumed reproducible between the recording run and the injection run (checked: a fault that is never reached is counted, not judged). Errors on close(2) are raised after its effect (the descriptor is always released). After an interrupt the process is assumed to exit (kernel locks dropped / S3 lease lapsed) before the follow-up.",
    technique="exhaustive single-fault injection over recorded step sequences (plus bounded double faults), oracle = independent reader state classification", design="3/C04")
+CHECKS["C03"] = dict(level="fault_enumeration",
+   text="Crash-point enumeration: for a prefix history (fixed in the quick tier, Hypothesis-generated in the thorough tier, incl. failed-commit and crash leftovers) and each operation (create_table, append, multi-append, delete_files, expire, delete_snapshot, garbage_collect) the table directory / S3 object map is copied before and after EVERY step of one complete run - each copy is exactly what a process death there leaves - plus torn prefixes of the natively written parquet temp file. Every crash state is reopened and must equal the pre- or post-state (independent reader), scan identically through the library, accept an append, and after ageing past grace and the 24 h marker window GC must delete nothing reachable, leave the content unchanged and remove the leftovers.",
+   note="Exhaustive over the step sequence of each (prefix, operation), not over prefixes. Process death with a surviving OS; kernel flocks die with the process, S3 lock objects are aged past the lease. Power loss is C16.",
+   technique="exhaustive crash-state enumeration over recorded step sequences (directory copies), oracle = independent reader + library reopen + follow-up append + GC", design="3/C03")
 NOT_YET = {}
 
 def main():
